@@ -1138,7 +1138,20 @@ fn run_child(unit: &str, ops: &[Op]) -> Option<String> {
         c.args(["-q", "--error-exitcode=97"]).arg(&exe);
         c
     } else { std::process::Command::new(&exe) };
-    let out = cmd.args([unit, "replay", "0", &txt.join(",")]).env("CAO_REPLAY_CHILD", "1").output().unwrap();
+    // the scenario may hang on unrepaired code (a cycle in a list): give the child two minutes; its output is drained by a
+    // thread so that a talkative memcheck cannot block it
+    let child = cmd.args([unit, "replay", "0", &txt.join(",")]).env("CAO_REPLAY_CHILD", "1")
+        .stdout(std::process::Stdio::piped()).stderr(std::process::Stdio::piped()).spawn().unwrap();
+    let pid = child.id();
+    let (tx, rx) = std::sync::mpsc::channel();
+    std::thread::spawn(move || { let _ = tx.send(child.wait_with_output()); });
+    let out = match rx.recv_timeout(std::time::Duration::from_secs(120)) {
+        Ok(Ok(out)) => out,
+        _ => {
+            let _ = std::process::Command::new("kill").args(["-9", &pid.to_string()]).status();
+            return Some("the process did not return within 120 s".to_string());
+        }
+    };
     if out.status.success() { return None; }
     let err = String::from_utf8_lossy(&out.stderr);
     let lines: Vec<&str> = err.lines().filter(|l| l.contains("Invalid read") || l.contains("Invalid write") || l.contains("free'd") || l.contains("cao_lang::")).take(3).map(|l| l.trim()).collect();
@@ -1436,8 +1449,12 @@ fn upvalue_list_scenario(ops: &[Op]) {
             ], 42),
             9 => (vec![
                 ("outer".to_string(), Function::default().with_cards(vec![
-                    set("pad", Card::scalar_int(1)), set("a", Card::scalar_int(55)),
-                    Card::return_card(closure(vec![Card::return_card(closure(vec![Card::return_card(Card::read_var("a"))]))])),
+                    set("pad", Card::scalar_int(1)), set("a", Card::scalar_int(11)), set("b", Card::scalar_int(55)),
+                    // the middle closure captures a then b; the innermost one inherits only b (a different position)
+                    Card::return_card(closure(vec![
+                        Card::set_global_var("mid_sum", CardBody::Add(bin(Card::read_var("a"), Card::read_var("b")))),
+                        Card::return_card(closure(vec![Card::return_card(Card::read_var("b"))])),
+                    ])),
                 ])),
                 ("main".to_string(), Function::default().with_cards(vec![
                     Card::set_global_var("m", Card::call_function("outer", vec![])),
@@ -1526,7 +1543,7 @@ fn run_upvalue_list(ops: &[Op]) {
     if std::env::var("CAO_REPLAY_CHILD").is_ok() { upvalue_list_scenario(ops); return; }
     if let Some(what) = run_child("upvalue_list", ops) {
         if ops[0].0 % 11 >= 7 {
-            let what2 = ["a counter closure (n = n + 1; return n) called three times after its creator returned, expected 3", "inc and get over one variable (40): inc() inside make, inc() after make returned, then get(), expected 42", "outer { a = 55; return || (|| a) }: the innermost closure inherits the upvalue, expected 55", "main { pad = 9; a = 1; c = || { a = 2 }; c(); g = a + pad * 10 }, expected 92"][(ops[0].0 % 11 - 7) as usize];
+            let what2 = ["a counter closure (n = n + 1; return n) called three times after its creator returned, expected 3", "inc and get over one variable (40): inc() inside make, inc() after make returned, then get(), expected 42", "outer { a = 11; b = 55; return || { mid_sum = a + b; return || b } }: the innermost closure inherits b from the middle one (which captured a, then b), expected 55", "main { pad = 9; a = 1; c = || { a = 2 }; c(); g = a + pad * 10 }, expected 92"][(ops[0].0 % 11 - 7) as usize];
             fail("upvalue_list", ops, 0, format!("{what2}: {what}"));
         }
         if ops[0].0 % 11 == 6 {
